@@ -67,7 +67,7 @@ class ExplorerScriptSsbDecompiler:
     _line_number: int
     labels_already_printed: list[int] = []
     # Ids of the labels that a written `jump @label_N;` or `call @label_N;` names.
-    labels_jumped_to: list[int] = []
+    labels_jumped_to: list[int]
     # Offset of the Jump op that was just passed, until the next statement is written.
     _jump_waiting_for_source_map: int | None = None
     smb: SourceMapBuilder | None
